@@ -13,6 +13,7 @@ PROPS = {
     "C12": {"coq": "Properties/C12.v", "gens": ["C12"]},
     "C13": {"coq": "Properties/C13.v", "gens": ["C13"]},
     "C14": {"coq": "Properties/C14.v", "gens": ["C14"], "trusted_base": CRYPTO_TB},
+    "C17": {"coq": "Properties/C17.v", "gens": ["C17"]},
     "C16": {"coq": "Properties/C16.v", "gens": ["C16"]},
     "C15": {"coq": "Properties/C15.v", "gens": ["C15"], "trusted_base": CRYPTO_TB},
 }
